@@ -208,18 +208,26 @@ def P5(m, R):
     cons = 'reset before re-applying'
     hit = None
     for n in ast.walk(loop):
-        if isinstance(n, ast.If) and any(isinstance(x, ast.Assign) and 'AnsiParam.RESET' in norm(x.value) and isinstance(x.value, ast.BinOp) for x in n.body):
+        if isinstance(n, ast.If) and any((isinstance(x, ast.Assign) and 'AnsiParam.RESET' in norm(x.value) and isinstance(x.value, ast.BinOp)) or
+                                         (isinstance(x, ast.Expr) and call_name(x.value) == 'insert' and 'AnsiParam.RESET' in norm(x.value)) for x in n.body):
             hit = n
             break
     if hit is None:
         R.viol(f, loop, 'the code list is never prefixed with RESET when settings end: ended settings would stay on in the non-optimised rendering', construct=cons)
     else:
-        asg = [x for x in hit.body if isinstance(x, ast.Assign)][0]
-        lst = norm(asg.targets[0])
-        parts = flatten_add(asg.value)
         problems = []
-        if not (len(parts) == 2 and norm(parts[0]) == '[str(AnsiParam.RESET.value)]' and norm(parts[1]) == lst):
-            problems.append('%s = %s; expected [RESET] + %s' % (lst, short(asg.value), lst))
+        ins = [x for x in hit.body if isinstance(x, ast.Expr) and call_name(x.value) == 'insert']
+        if ins:
+            c = ins[0].value
+            lst = norm(c.func.value)
+            if not (len(c.args) == 2 and const_val(c.args[0], None) == 0 and norm(c.args[1]) == 'str(AnsiParam.RESET.value)'):
+                problems.append('%s; expected RESET inserted at the front' % short(c))
+        else:
+            asg = [x for x in hit.body if isinstance(x, ast.Assign)][0]
+            lst = norm(asg.targets[0])
+            parts = flatten_add(asg.value)
+            if not (len(parts) == 2 and norm(parts[0]) == '[str(AnsiParam.RESET.value)]' and norm(parts[1]) == lst):
+                problems.append('%s = %s; expected [RESET] + %s' % (lst, short(asg.value), lst))
         stop = '%s.%s' % (point, ro.STOP)
         tt = {}
         for a in (True, False):
